@@ -520,7 +520,7 @@ scpi_bool_t matchCommand(const char * pattern, const char * cmd, size_t len, int
 
     /* both commands are query commands? */
     if (pattern_ptr[pattern_len - 1] == '?') {
-        if (cmd_ptr[cmd_len - 1] == '?') {
+        if ((cmd_len > 0) && (cmd_ptr[cmd_len - 1] == '?')) {
             cmd_len -= 1;
             pattern_len -= 1;
         } else {
